@@ -286,7 +286,11 @@ func c03Case(c *mon.Ctx, aText, bText string, prof gen.Profile, exhaustiveSubset
 	n := len(full)
 	var masks []int
 	allMask := 1<<n - 1
-	if n <= 4 && exhaustiveSubsets {
+	maxAll := 4
+	if c.Tier == mon.Thorough {
+		maxAll = 6
+	}
+	if n <= maxAll && exhaustiveSubsets {
 		for m := 1; m <= allMask; m++ {
 			masks = append(masks, m)
 		}
